@@ -760,6 +760,11 @@ Proof.
         eapply rP_bind; [apply Hev, Hrho|]. intros w Hw. eapply rP_bind; [apply as_data_wf, Hw|]. intros a Ha.
         destruct (vmem a remaining); [apply IH, filter_canon, Hrem | apply rP_err].
       * destruct binder; [apply rP_err | apply IH, Hrem].
+  - (* (e1, e2, ..) *)
+    eapply rP_bind; [apply as_data_wf, Hv|]. intros b Hb.
+    induction es as [|e es IH]; [apply rP_err|].
+    eapply rP_bind; [apply Hev, Hrho|]. intros w Hw. eapply rP_bind; [apply as_data_wf, Hw|]. intros a Ha.
+    destruct (veqb a b); [apply rP_ok; constructor | exact IH].
 Qed.
 End Step.
 Transparent rP.
